@@ -270,6 +270,12 @@ func (c *Ctx) addDec(tc *TypeCase, data []byte, prior reflect.Value, label strin
 	if r.panicked {
 		c.native = append(c.native, NativeViolation{Case: desc, What: "Unmarshal panicked: " + r.msg, Class: "decode-panic"})
 	}
+	if !r.panicked && r.err == nil {
+		// memory safety of the unsafe append paths: a slice never exceeds its capacity
+		if msg := checkSliceCaps(target.Elem(), 0); msg != "" {
+			c.native = append(c.native, NativeViolation{Case: desc, Class: "slice-len-exceeds-cap", What: msg})
+		}
+	}
 	fuel := tc.Depth + 3
 	if tc.Rec {
 		fuel = tc.Depth + len(data) + 2
